@@ -24,14 +24,18 @@ LEVEL = 'model_checking'
 ENGINE = 'E2 small-scope enumeration against an independent stable reference sort'
 RULE = ('every table of each family (single key + id column with ids DEscending, so that a merge comparing whole '
         'rows on key ties is visible; compound key + ascending id; key=None lexical with and without id column, '
-        'the latter with equal cells of different type; ragged rows: key cell missing, surplus cells, empty rows) x '
+        'the latter with equal cells of different type; ragged rows: key cell missing, surplus cells, empty rows; '
+        'header-field namings for key=None / index keys: int names that look like indices, None, float, duplicate '
+        'names, names equal after str()) x '
         'key spellings x the strategy cross product: full = reverse x buffersize {None,1..n+1} given as argument '
         'and via petl.config.sort_buffersize x cache x tempdir {default; explicit when chunked}; core = reverse x '
         'buffersize {None,1..n+1} x cache; lite (extra key spellings) = reverse x buffersize {None,1,n}; every '
         'view is iterated 3 times (2 with cache=False).  mergesort: every assignment of the rows of every table to '
         '2 (thorough: 3) parts x header variants {same, extra field, permuted, renamed non-key field} x key '
         '{field, None, index when headers are equal} x reverse x {presorted, not presorted x buffersize {None,1} x '
-        'cache} x 2 passes (+ missing= / header= forms in thorough), against the reference sort(cat()) and the '
+        'cache} x 2 passes; header= forms (same / permuted inputs): key {field, None} x header= {natural order, reordered, one '
+        'non-key column dropped, extra column} x reverse x buffersize {None,1}, and missing=\'~\' with the extra column '
+        '(both tiers; missing= alone in thorough), against the reference sort(cat()) and the '
         'real sort(cat()).  issorted on every table x key x reverse x strict and on every default sort '
         'output.  states = distinct (table, key, strategy) points; transitions = passes over a real view; a state '
         'is non-trivial when the table has >= 2 rows and sorting must move a row or must keep two equal-key rows '
@@ -44,6 +48,8 @@ ASSUMPTIONS = [
     'and whether absent cells read as None, so both readings are accepted, but every strategy/pass must deliver '
     'the sequence of the default strategy',
     'buffersize 0 and negative are outside the statement (1 .. beyond the row count)',
+    'non-text field names are enumerated for sort/issorted only (mergesort renders field names as text, cat does '
+    'not: outside the documented domain)',
     'mergesort: key given by field NAME (its docstring) unless all headers are equal; presorted=True with '
     'key=None is enumerated only when the common fields are in the same column order in every input (otherwise '
     '"already sorted lexically" is ambiguous); missing != None only on rectangular inputs',
